@@ -457,7 +457,7 @@ def collect_scripts(lens, prop, faults, extra_hints=True):
         if extra_hints:
             hints += [[n, n], [n + 1, -1], [0, max(n - 1, 0)], [n + 2, n + 2], [0, 0], [1, 1]]
             # bounds of usize::MAX (coded 2^31 - 1): an upper bound that cannot be incremented, a lower bound beyond any N
-            hints += [[0, 2147483647], [n, 2147483647], [2147483647, -1]]
+            hints += [[0, 2147483647], [n, 2147483647], [2147483647, -1], [n + 2, 1], [2147483647, 0]]
         for sc in scripts:
             for h in hints:
                 for op in ("try_from_iter", "from_iter", "try_boxed_from_iter", "boxed_from_iter"):
